@@ -29,6 +29,7 @@ type c17Arg struct {
 	Depth  int  `json:"depth"`
 	Banned bool `json:"banned"` // the history starts with a peer that got banned for a corrupt piece
 	BL     string `json:"bl,omitempty"` // blocklist switches: "" both on | "in" incoming only | "out" outgoing only
+	StopRace bool `json:"stoprace,omitempty"` // Stop reaches the loop while a completed outgoing handshake is still waiting to be handed over
 	HangUp bool `json:"hangup"` // ... and that peer hung up right after its last corrupt block, before the hash check result
 }
 
@@ -109,6 +110,40 @@ func mkC17() *Scenario {
 			out = append(out, p)
 			outByAddr[addr] = p
 			return cli, nil
+		}
+		if arg.StopRace {
+			w.Launch("AddPeer", func() any { return w.Tor.AddPeer("10.0.6.10:7000") })
+			pending := func(label string) int {
+				for i, a := range StdActions(w) {
+					if a.Label == label {
+						return i
+					}
+				}
+				return -1
+			}
+			for k := 0; k < 40 && pending("deliver:outgoingHandshakerResultC") < 0; k++ {
+				w.Quiesce()
+				acts := StdActions(w)
+				if len(acts) == 0 {
+					break
+				}
+				acts[0].Do(w)
+				w.Quiesce()
+			}
+			if pending("deliver:outgoingHandshakerResultC") < 0 {
+				core.HarnessError("c17 setup: the outgoing handshake never completed")
+			}
+			w.CmdStop()
+			w.Quiesce()
+			if i := pending("deliver:stopCommandC"); i >= 0 {
+				StdActions(w)[i].Do(w) // the loop takes the Stop before the handshake result
+			} else {
+				core.HarnessError("c17 setup: stop command not pending")
+			}
+			w.drain(100)
+			w.Advance(6 * time.Second)
+			w.drain(100)
+			w.Count("stop_races", 1)
 		}
 		if arg.Banned {
 			// a peer serves a corrupt piece and gets banned
@@ -339,6 +374,14 @@ func mkC17() *Scenario {
 				failf(w, "C18.incoming-blocked-kept", "incoming connection from the blocked address %s was not closed", ip)
 			}
 		}
+		if st.Status == "Stopped" {
+			// a stopped torrent keeps no connection: whatever was dialled or accepted has been closed by the client
+			for _, p := range append(append([]*c17Peer{}, in...), out...) {
+				if p.Conn != nil && !p.Conn.RemoteClosed() {
+					failf(w, "C17.stopped-connection-kept", "the torrent is Stopped but the connection with %s was never closed by the client (client counts %d+%d peers, %d+%d handshakes)", p.Addr, st.IncomingPeers, st.OutgoingPeers, st.IncomingHandshakers, st.OutgoingHandshakers)
+				}
+			}
+		}
 		for _, p := range out {
 			if (p.kind == "badhash" || p.kind == "silent") && p.Conn != nil && !p.Conn.RemoteClosed() {
 				failf(w, "C17.failed-handshake-kept.outgoing-"+p.kind, "outgoing connection to %s (%s handshake) was never closed by the client", p.Addr, p.kind)
@@ -375,6 +418,8 @@ func TestC17Lab(t *testing.T) {
 			}
 		}
 	}
+	// Stop overtakes a completed outgoing handshake
+	runs = append(runs, Run{Scenario: "c17", Arg: c17Arg{Accept: 2, Dial: 2, ReqOut: 2, Depth: 1, StopRace: true}, Budget: 0, MaxExec: 400000})
 	// the blocklist applied to one direction only
 	for _, bl := range []string{"in", "out"} {
 		runs = append(runs, Run{Scenario: "c17", Arg: c17Arg{Accept: 2, Dial: 2, ReqOut: 2, Depth: 2, BL: bl}, Budget: 0, MaxExec: 400000})
